@@ -93,6 +93,20 @@ def check_A1(ctx, scope, methods, public):
             memos[X] = verdict
             ctx.ob('memo-validity', m, m.node, verdict[0], 'cross-call memo table self.%s: %s' % (X, verdict[1]),
                    construct='memo table self.%s in %s' % (X, m.name))
+    keyed_state = set()
+    try:
+        from ..engines.solvers import find_setup
+        from ..normalise import normalised
+        from .C04 import per_key_reset
+        setup_ = normalised(ctx.repo, find_setup(ctx.repo, INF, 'FactoredInference'))
+        pk = per_key_reset(ctx.repo, setup_)
+        if pk is not None:
+            ctx.ob('A2-per-call-state', setup_, pk[2], pk[0], 'self.groups is kept on the object and emptied key by key: %s' % pk[1],
+                   construct='per-key reset of self.groups')
+            if pk[0]:
+                keyed_state.add('groups')
+    except AnalysisError:
+        pass
     for key, fi in scope.funcs.items():
         s = scope.summaries[key]
         in_engine = fi.cls is not None and fi.cls.name == 'FactoredInference'
@@ -121,6 +135,8 @@ def check_A1(ctx, scope, methods, public):
             ok = not bad
             # a memo table is judged by memo-validity above (and reported there if it is not valid)
             bad = [t for t in bad if not (t.startswith('S:') and t[2:] in memos)]
+            # a container emptied key by key for every key of the current call (rules/C04 per_key_reset) behaves like per-call state
+            bad = [t for t in bad if not (t.startswith('S:') and t[2:] in keyed_state)]
             ok = not bad
             if ok and foreign:
                 detail = '%s: writes to %s - obligation transferred to the call sites (summary)' % (site.what, ', '.join(foreign))
